@@ -86,9 +86,13 @@ type Layout struct {
 	Tape       []uint8 `json:"tape,omitempty"` // consumed in order by every layout decision; exhausted = 0 = canonical choice
 	// LongNoise: length of the first comment line at column 0 and of the first whitespace-only line (0: ordinary)
 	LongNoise int `json:"long_noise,omitempty"`
-	longDone  [2]bool
-	pos       int
-	used      map[string]int
+	// AlignBlock > 0: a comment line is inserted so that the first multi-byte character of each file lies across a multiple of
+	// AlignBlock bytes (its first AlignSplit+1 bytes before the boundary): readers that work block-wise see it in two pieces
+	AlignBlock int `json:"align_block,omitempty"`
+	AlignSplit int `json:"align_split,omitempty"`
+	longDone   [2]bool
+	pos        int
+	used       map[string]int
 }
 
 var canonicalLayout = Layout{Unit: 4}
@@ -412,9 +416,34 @@ func renderScript(sc *Script, lay *Layout) []string {
 		if lay.CRLF {
 			s = strings.ReplaceAll(s, "\n", "\r\n")
 		}
+		if lay.AlignBlock > 0 {
+			s = alignMultiByte(s, lay.AlignBlock, lay.AlignSplit, lay.CRLF)
+			lay.note("aligned-to-block")
+		}
 		out = append(out, s)
 	}
 	return out
+}
+
+// alignMultiByte inserts one comment line in front of the line that holds the first multi-byte character of s (never a
+// header line) so that this character straddles a multiple of block bytes.
+func alignMultiByte(s string, block, split int, crlf bool) string {
+	p := strings.IndexFunc(s, func(r rune) bool { return r >= 0x80 })
+	body := strings.Index(s, "---")
+	if p < 0 || body < 0 || p < body {
+		return s
+	}
+	lineStart := strings.LastIndex(s[:p], "\n") + 1
+	nl := "\n"
+	if crlf {
+		nl = "\r\n"
+	}
+	want := block - 1 - split // offset of the character's first byte within its block
+	pad := ((want-p)%block + block) % block
+	for pad < len("//")+len(nl) {
+		pad += block
+	}
+	return s[:lineStart] + "//" + strings.Repeat("x", pad-2-len(nl)) + nl + s[lineStart:]
 }
 
 func renderCanonical(sc *Script) []string {
